@@ -135,6 +135,17 @@ def enum_cases(tier):
         out.append(("discriminant 2^N", lit_enum("E", N, "false", [("A", "0", None), ("B", "%d" % full, None)][: 2 if full > 2 else 1] if full > 2 else [("B", "%d" % full, None)]),
                     mk_enum("x", "E", N, [0, full - 1] if full > 2 else [full - 1])))
         out.append(("discriminant 2^N+1", lit_enum("E", N, "false", [("B", "%d" % (full + 1), None)]), mk_enum("x", "E", N, [full - 1])))
+    for N in (1, 2, 3, 4):
+        full = 1 << N
+        # exactly 2^N variants, but one discriminant does not fit: neither exhaustive nor representable
+        vs = seq(full - 1) + [("Big", "%d" % (full + 3), None)]
+        vs2 = seq(full - 1) + [("Big", "%d" % full, None)]
+        okvs = mk_enum("x", "E", N, list(range(full)))
+        out.append(("2^N variants with a discriminant >= 2^N, exhaustive=true", lit_enum("E", N, "true", vs), okvs))
+        out.append(("2^N variants with discriminant == 2^N, exhaustive=true", lit_enum("E", N, "true", vs2), okvs))
+        out.append(("2^N variants with a discriminant >= 2^N, exhaustive=false", lit_enum("E", N, "false", vs), None))
+        out.append(("2^N variants with a discriminant >= 2^N, exhaustive=conditional", lit_enum("E", N, "conditional", vs), None))
+        out.append(("discriminant >= 2^N under exhaustive=conditional", lit_enum("E", N, "conditional", [("A", "0", None), ("Big", "%d" % full, None)][: 2 if N > 0 else 1]), None))
     for N in (8, 9, 15, 16, 17, 31, 32, 33, 63):
         full = 1 << N
         out.append(("discriminant 2^N at storage boundary", lit_enum("E", N, "false", [("A", "0", None), ("B", "0x%x" % full, None)]), mk_enum("x", "E", N, [0, full - 1])))
@@ -372,6 +383,26 @@ def build_negative(tier, seed):
         e2 = mk_enum(mod, "E", w_enum, list(range(1 << w_enum)) if full else [0, 1], family="TWIN")
         twin.add(e2)
         s2 = struct(mod, "W", 32, [field("x", [(0, w_enum - 1)], T_enum("E", w_enum, full))], family="TWIN")
+        twin.add(s2)
+    # `debug` needs a getter for every field: write-only / unspecified / array fields must not get one
+    for i, (clause, prop, acc, arr) in enumerate([
+            ("debug with a write-only field must not compile (w fields have no getter)", "C17", "w", None),
+            ("debug with an unspecified-access field must not compile (no getter)", "C17", "", None),
+            ("debug with a write-only bool must not compile", "C17", "w", "bool"),
+            ("debug with an array field must not compile", "C19", "rw", "array"),
+            ("debug with a write-only array field must not compile", "C17", "w", "array")]):
+        mod = "g%d" % i
+        if arr == "bool":
+            f = field("key", [(4, 4)], T_bool(), access=acc)
+        elif arr == "array":
+            f = field("key", [(4, 5)], T_uint(2), access=acc, array={"k": 2, "stride": None})
+        else:
+            f = field("key", [(4, 7)], T_uint(4), access=acc)
+        fs = [field("plain", [(0, 3)], T_uint(4)), f]
+        s = struct(mod, "W", 16, fs, family="NEG", debug=True, default={"form": "=", "value": 0})
+        from corpus import imports_of
+        negt.add(raw_item(mod, "W", render_struct(s), prop, clause, extra={"imports": sorted(imports_of(s))}))
+        s2 = struct(mod, "W", 16, fs, family="TWIN", debug=False, default={"form": "=", "value": 0})
         twin.add(s2)
     crates.append(negt)
     # ---- enums (C10)
